@@ -7,6 +7,7 @@
 package main
 
 import (
+	"bytes"
 	"errors"
 	"fmt"
 	"io"
@@ -285,7 +286,11 @@ func runCase(r *h.Run, c caseT) {
 	w.fd = w.cn.Hash()
 	defer outb.DropPolicy(w.fd, w.cn)
 	w.peer = peer
+	// the received bytes are kept in chunks and joined once the reader has ended: growing one
+	// slice of hundreds of MB (allocate + copy, in all shards at the same moment) stalled the
+	// reader for seconds on a loaded machine and looked like a drain that does not move
 	var stream []byte
+	var chunks [][]byte
 	pause := int32(0)
 	if !shim {
 		pause = 1
@@ -301,7 +306,7 @@ func runCase(r *h.Run, c caseT) {
 			}
 			n, err := peer.Read(buf)
 			if n > 0 {
-				stream = append(stream, buf[:n]...)
+				chunks = append(chunks, append([]byte(nil), buf[:n]...))
 				atomic.AddInt64(&w.gotN, int64(n))
 				atomic.AddInt64(&progress, int64(n))
 			}
@@ -493,6 +498,8 @@ func runCase(r *h.Run, c caseT) {
 		peer.Close()
 		<-readerDone
 	}
+	stream = bytes.Join(chunks, nil)
+	chunks = nil
 	if w.failed {
 		return
 	}
